@@ -28,3 +28,8 @@ pub mod udp;
 
 pub(crate) mod transport;
 pub(crate) mod util;
+
+/// deterministic-simulation harness (only compiled with `--cfg dnp3_verif`)
+#[cfg(dnp3_verif)]
+#[path = "/verif/harness/mod.rs"]
+pub mod verif;
